@@ -518,7 +518,9 @@ func c19GenFb(t *rapid.T, allowEmptyGrid bool, excluded func()) c19FbCase {
 		}
 	}
 	gridRows := (c.Height - logoH) / c.GlyphH
-	c.Ops = rapid.SliceOfN(c19GenOp(c.Width/c.GlyphW, gridRows, special), 1, 25).Draw(t, "ops")
+	bytesPP := uint32(c.Bpp+7) / 8
+	mults := []uint32{c.GlyphW, c.GlyphH, c.GlyphW * bytesPP, c.Width*bytesPP + c.Pad, c.GlyphH * (c.Width*bytesPP + c.Pad)}
+	c.Ops = rapid.SliceOfN(c19GenOp(c.Width/c.GlyphW, gridRows, special, mults), 1, 25).Draw(t, "ops")
 	return c
 }
 
